@@ -40,7 +40,7 @@ var unitTrusted = []string{"go/ssa", "the seed table of checker/units.go (fields
 
 func init() {
 	register("C05", &propInfo{
-		Explanation: "UNIT: units/kinds dataflow over the transform code (transform.go, matrix.go, metaball.go, squeeze.go, render3d/transform.go; 2D and 3D): directions, normals and ray parameters are not pushed through point/length maps (Transform.Apply on a vector without the image-difference idiom; DistTransform.ApplyDistance on anything but a length); sums, comparisons, distances and stores into seeded fields are dimensionally consistent; all returns of a function agree on their dimension. ABSORB: no transformed bound is computed as x.Max(y.Min(x)). FIRSTITER: the first-corner initialisation of the bounds enumeration tests every loop variable of its nest. IDBOUNDS: no ApplyBounds returns its box unchanged while the sibling Apply moves points. INVORDER: the inverse of a composition (an Inverse method on a slice of invertible members) puts every member inverse at the mirrored position. MIRRORSWAP: no s[i] <-> s[len(s)-1-i] swap loop runs over the whole length. SIGNMAP: an ApplyBounds that multiplies its corners by a factor of unknown sign orders the result with Min/Max, and an ApplyDistance that multiplies by such a factor uses its magnitude. FRAME: in every transformed wrapper (methods of structs holding a Transform, closures capturing one) world-frame query values reach the wrapped object only through the inverse transform and forward maps are applied only to object-frame values.",
+		Explanation: "UNIT: units/kinds dataflow over the transform code (transform.go, matrix.go, metaball.go, squeeze.go, render3d/transform.go; 2D and 3D): directions, normals and ray parameters are not pushed through point/length maps (Transform.Apply on a vector without the image-difference idiom; DistTransform.ApplyDistance on anything but a length); sums, comparisons, distances and stores into seeded fields are dimensionally consistent; all returns of a function agree on their dimension. ABSORB: no transformed bound is computed as x.Max(y.Min(x)). FIRSTITER: the first-corner initialisation of the bounds enumeration tests every loop variable of its nest. DISTINV: every concrete value returned by the Inverse method of a type that implements DistTransform implements DistTransform too. IDBOUNDS: no ApplyBounds returns its box unchanged while the sibling Apply moves points. INVORDER: the inverse of a composition (an Inverse method on a slice of invertible members) puts every member inverse at the mirrored position. MIRRORSWAP: no s[i] <-> s[len(s)-1-i] swap loop runs over the whole length. SIGNMAP: an ApplyBounds that multiplies its corners by a factor of unknown sign orders the result with Min/Max, and an ApplyDistance that multiplies by such a factor uses its magnitude. FRAME: in every transformed wrapper (methods of structs holding a Transform, closures capturing one) world-frame query values reach the wrapped object only through the inverse transform and forward maps are applied only to object-frame values.",
 		Trusted:     unitTrusted,
 		Assumptions: []string{"model coordinates are lengths; a Transform value obtained from X.Inverse() is the inverse of X"},
 		Fixtures:    []string{"u", "g"},
@@ -58,12 +58,16 @@ func init() {
 			c.floor("SIGNMAP", 0)
 			c.runIdentityBounds("IDBOUNDS", append(c.libPkgs()[:3:3], c.fixturePkg("g")))
 			c.floor("IDBOUNDS", 8)
+			c.runDistInverse("DISTINV", c.libPkgs()[:2])
+			c.floor("DISTINV", 6)
 			c.runInverseOrder("INVORDER", append(c.libPkgs()[:3:3], c.fixturePkg("g")))
 			c.floor("INVORDER", 2)
 			c.runMirrorSwap("MIRRORSWAP", append(c.libPkgs()[:3:3], c.fixturePkg("g")), c.fileFilter("transform.go", "matrix.go", "squeeze.go"))
 			c.floor("MIRRORSWAP", 0)
 		},
 		SelfTest: []Mutation{
+			{Name: "inverse of a rotation loses its distance map", File: "model3d/transform.go",
+				Old: "\treturn &orthoMatrix3Transform{*m.Matrix3Transform.Inverse().(*Matrix3Transform)}", New: "\treturn &Matrix3Transform{Matrix: m.Matrix.Transpose()}", Rule: "DISTINV", Expect: "orthoMatrix3Transform"},
 			{Name: "conjugated meshing maps back with the inverses in forward order", File: "model3d/mc.go",
 				Old: "\treturn mesh.Transform(joined.Inverse())", New: "\tinverse := make(JoinedTransform, len(xforms))\n\tfor i, x := range xforms {\n\t\tinverse[i] = x.Inverse()\n\t}\n\treturn mesh.Transform(inverse)", Rule: "INVORDER", Expect: "MarchingCubesConj"},
 			{Name: "pinch reports the box it was given", File: "toolbox3d/squeeze.go",
@@ -144,6 +148,7 @@ func init() {
 			c.runRoulette("ROULETTE", append(c.libPkgs()[3:4:4], c.fixturePkg("u")))
 			c.floor("ROULETTE", 0)
 			c.runSamplerPair("SAMPLERPAIR", c.libPkgs()[3:4])
+			c.runSamplerPairFuncs("SAMPLERPAIR", c.libPkgs()[3:4])
 			c.floor("SAMPLERPAIR", 3)
 			// area-proportional selection of a triangle / sub-light
 			c.runCumTab("CUMTAB", c.libPkgs()[3:4], nil)
@@ -153,6 +158,8 @@ func init() {
 			c.floor("FILL", 0)
 		},
 		SelfTest: []Mutation{
+			{Name: "destination sampler of symmetric materials forgets to reverse the fixed direction", File: "render3d/material.go",
+				Old: "return mat.SampleSource(gen, normal, source.Scale(-1)).Scale(-1)", New: "return mat.SampleSource(gen, normal, source).Scale(-1)", Rule: "SAMPLERPAIR", Expect: "SampleDest"},
 			{Name: "mixture sampler compares the draw with each probability alone", File: "render3d/material.go",
 				Old: "\t\tp -= subProb\n\t\tif p < 0 || i == len(j.Probs)-1 {\n\t\t\treturn j.Materials[i].SampleSource(gen, normal, dest)", New: "\t\tif p < subProb || i == len(j.Probs)-1 {\n\t\t\treturn j.Materials[i].SampleSource(gen, normal, dest)", Rule: "ROULETTE", Expect: "SampleSource"},
 			{Name: "focus density drops the inside-the-sphere fallback", File: "render3d/focus_point.go",
